@@ -7,7 +7,9 @@ EXTENDS TypeRegCxx, TypeRegSizes, TypeRegCxxTab, Json, IOUtils
 CONSTANTS MaxAdds, MaxRefs, RawSizes, RawNames
 VARIABLE hist
 FBuiltinIf == <<"convertable", "logger", "reply", "output", "object", "config", "iterator", "collection", "solver">>
-GProbe == {105, 256, 257, 258, 2304, 2305, 2306}
+\* built-in, first ids of the registrable ranges and the ids around every range end
+GProbe == IF CxxTypes = {} THEN {257, 2304}
+          ELSE {105, 191, 192, 255, 256, 257, 258, 2047, 2303, 2304, 2305, 2306, 4095, 4096}
 GenInit == CInit /\ hist = <<obs>>
 GenNext == /\ CxxNext \/ (RawNext(RawSizes, RawNames, GProbe, 2300, 2310) /\ CKeep)
            /\ hist' = Append(hist, obs')
